@@ -5,7 +5,7 @@
 From Coq Require Import List NArith ZArith QArith Qcanon Bool Lia Sorted.
 From ACB Require Import Base.Outcome Base.QcExtra Base.Arith Model.Tx Model.Ledger Model.Sfl
      Model.DeltaList Model.App Model.Summary Proofs.Tactics Proofs.C15Full Proofs.C04Sum
-     Proofs.RenderProps Proofs.C01Refine Proofs.SummaryProps Proofs.C10Scan Proofs.C10Sim Proofs.C10Cut Proofs.C10Roundtrip.
+     Proofs.RenderProps Proofs.C01Refine Proofs.SummaryProps Proofs.C10Scan Proofs.C10Sim Proofs.C10Cut Proofs.C10Roundtrip Proofs.C04Inv.
 Import ListNotations.
 Local Open Scope Qc_scope.
 
@@ -458,7 +458,8 @@ Theorem roundtrip_annual_run regof like d0 (hs : list ahold) (sells : list asell
   Forall (fun s => (d0 < as_date s - window_days)%Z) sells ->
   ps_all st1 = tot_sh hs -> lp st1 = ps_all st1 ->
   (forall af, goodaf regof af -> obs st1 af = obs_hs hs af ah_sh (0, if af_reg af then None else Some 0)) ->
-  run_loop exact B1 st1 T = (dsT, None) -> Forall spec_nz T -> Forall (gooddelta regof) dsT ->
+  run_loop exact B1 st1 T = (dsT, None) -> Forall spec_nz T -> st_ok st1 -> Forall sell_pos T ->
+  Forall (gooddelta regof) dsT ->
   Forall (fun d => (d_sfl d <> None -> inert exact (d_sd d - window_days) B1)
                    /\ ((d_sfl d <> None \/ loss_row d) -> (d0 < d_sd d - window_days)%Z)) dsT ->
   exists dsB dsS,
@@ -467,7 +468,7 @@ Theorem roundtrip_annual_run regof like d0 (hs : list ahold) (sells : list asell
     /\ map d_gain dsS = map (fun s => Some (as_gain s - as_loss s)) sells
     /\ Forall (fun d => d_sfl d = None) dsS.
 Proof.
-  intros Hnd Hok Hn Hso Hsort Hndk Hd0 Htot1 Hlp1 Hobs1 HT Hnz HG HW.
+  intros Hnd Hok Hn Hso Hsort Hndk Hd0 Htot1 Hlp1 Hobs1 HT Hnz Hok1 HspT HG HW.
   destruct (annual_rebuild like d0 hs sells T Hnd Hok Hn Hso Hsort Hndk Hd0)
     as (dsB & dsS & stG & Hrun & Htot & Hlp & Hobs & HgB & Hg & Hsf).
   set (B2 := rev (map (asell_tx like) sells) ++ rev (map (abuy_tx like d0) hs)) in *.
@@ -489,7 +490,7 @@ Proof.
   { eapply Forall_impl; [|exact HW]. intros d [H1 H2]. split.
     - intros Hs. split; [apply H1; exact Hs | apply HB2; apply H2; left; exact Hs].
     - intros _ Hl. apply HB2. apply H2. right. exact Hl. }
-  pose proof (later_sim B1 B2 regof T [] [] st1 stG dsT (Forall2_nil _) HR Hnz HT HWc HG) as ET.
+  pose proof (later_sim B1 B2 regof T [] [] st1 stG dsT (Forall2_nil _) HR Hnz Hok1 HspT HT HWc HG) as ET.
   exists dsB, dsS. split; [|split; [exact HgB|split; assumption]].
   rewrite run_None. fold st0. rewrite app_assoc, run_loop_app, Hrun. cbn [app] in ET. rewrite ET.
   rewrite <- app_assoc. reflexivity.
@@ -552,7 +553,8 @@ Lemma an_hypotheses :
   /\ ps_all an_st1 = tot_sh an_hs /\ lp an_st1 = ps_all an_st1
   /\ (forall af, goodaf no_reg0 af ->
         obs an_st1 af = obs_hs an_hs af ah_sh (Q2Qc 0, if af_reg af then None else Some (Q2Qc 0)))
-  /\ run_loop exact an_B1 an_st1 an_T = (an_dsT, None) /\ Forall spec_nz an_T /\ Forall (gooddelta no_reg0) an_dsT
+  /\ run_loop exact an_B1 an_st1 an_T = (an_dsT, None) /\ Forall spec_nz an_T
+  /\ st_ok an_st1 /\ Forall sell_pos an_T /\ Forall (gooddelta no_reg0) an_dsT
   /\ Forall (fun d => (d_sfl d <> None -> inert exact (d_sd d - window_days) an_B1)
                      /\ ((d_sfl d <> None \/ loss_row d) -> an_d0 < d_sd d - window_days)) an_dsT
   /\ existsb is_sfl_delta an_dsT = true
@@ -580,6 +582,10 @@ Proof.
              + destruct (N.eqb_spec 1003 (af_id af)); [congruence | reflexivity]. }
   split; [vm_compute; reflexivity|].
   split. { repeat constructor. }
+  split. { apply (run_part_ok an_P [] st0 an_T (fst (fst (fst an_runP))) an_B1 an_st1).
+           - vm_compute. reflexivity.
+           - split; cbn; [constructor | apply Qcle_refl]. }
+  split. { repeat constructor; vm_compute; reflexivity. }
   split. { vm_compute. repeat constructor. }
   split. { vm_compute. repeat constructor; try (intros; reflexivity). }
   split; [vm_compute; reflexivity|]. split; vm_compute; reflexivity.
